@@ -48,10 +48,56 @@ pub struct UniformAdversary {
     pub calm: Rc<Cell<bool>>,
     /// Earlier datagrams per sender (for replays)
     pub seen: Vec<(usize, Vec<u8>)>,
+    /// (destination node, message counter) of the Pake2 messages the device sent
+    pub pake2_seen: Vec<(usize, u32)>,
+}
+
+/// Counter names for "the device sent a (distinct) PASE Pake2 message to node n"
+pub const PAKE2_TO: [&str; 8] = [
+    "pake2_distinct_to_n0",
+    "pake2_distinct_to_n1",
+    "pake2_distinct_to_n2",
+    "pake2_distinct_to_n3",
+    "pake2_distinct_to_n4",
+    "pake2_distinct_to_n5",
+    "pake2_distinct_to_n6",
+    "pake2_distinct_to_n7",
+];
+
+impl UniformAdversary {
+    /// Observation only (no choice drawn): a Pake2 sent by the device means the handshake got as
+    /// far as the proof; retransmissions of one Pake2 count once.
+    fn note_pake2(&mut self, rec: &TapSend) {
+        let secured = rec.bytes.len() >= 4 && (rec.bytes[1] != 0 || rec.bytes[2] != 0 || rec.bytes[3] & 1 != 0);
+        if secured || rec.src != 0 {
+            return;
+        }
+        let Some(plain) = crate::wire::decode_plain(&rec.bytes) else {
+            return;
+        };
+        let Some(proto) = crate::wire::decode_proto(&rec.bytes, &plain, None, 0) else {
+            return;
+        };
+        if proto.proto_id != 0 || proto.opcode != 0x23 {
+            return;
+        }
+        let Some(to) = crate::net::addr_node(&rec.dst) else {
+            return;
+        };
+        if to >= PAKE2_TO.len() {
+            return;
+        }
+        let key = (to, plain.ctr);
+        if !self.pake2_seen.contains(&key) {
+            self.pake2_seen.push(key);
+            *self.fired.borrow_mut().entry(PAKE2_TO[to]).or_default() += 1;
+        }
+    }
 }
 
 impl Policy for UniformAdversary {
     fn decide(&mut self, _rec: &TapSend) -> Vec<Fate> {
+        self.note_pake2(_rec);
         let cfg = &self.cfg;
         let lat = cfg.latency_us
             + if cfg.jitter_us > 0 {
@@ -232,6 +278,7 @@ pub fn drive_full_with(seed: u64, cfg: FullCfg, step_hook: &mut dyn FnMut(u64, &
         fired: fired.clone(),
         calm: calm.clone(),
         seen: Vec::new(),
+        pake2_seen: Vec::new(),
     }));
     let log: FullLog = Rc::new(RefCell::new(Vec::new()));
     let events: Rc<RefCell<Vec<FullXEvent>>> = Rc::new(RefCell::new(Vec::new()));
